@@ -9,3 +9,4 @@ for p in "$@"; do
   echo "$p rc=$rc :: $(echo "$out" | grep -E "VIOLATION|KNOWN|INFRA" | head -2 | tr '\n' ' ') | $(echo "$out" | tail -1)"
 done
 cd /repo && git checkout -- . && git status --short | head -3
+cd /verif/lean && ../tools/extract/target/release/extract /repo Rsactor/Extracted.lean /verif/build/extract.json >/dev/null 2>&1
